@@ -133,6 +133,15 @@ func (c context) findVariable(name string, prefix string, global bool) (Variable
 		return Variable{}, false
 	}
 	variable, exists := c.variables[prefixedName]
+
+	// Within a function or a block the global variables of the own (imported) file are stored with the file's prefix.
+	if !exists && !global {
+		prefixedName, err = c.buildPrefixedName(name, prefix, true, true)
+
+		if err == nil {
+			variable, exists = c.variables[prefixedName]
+		}
+	}
 	return variable, exists
 }
 
